@@ -420,4 +420,59 @@ func TestC07Lib(t *testing.T) {
 		}
 		return res
 	})
+	// free-running producer: no rendezvous, a long queue (so that the delete step takes a while) and a goroutine
+	// that keeps appending while the combiner works; conservation: every appended task is in the queue afterwards
+	nFree := e.Pick(40, 4000)
+	vlib.RunCases(t, "C07", "lib-free-running-append", nFree, func(c *vlib.Case) vlib.Result {
+		var res vlib.Result
+		rng := c.Rng
+		n := 200 + rng.IntN(400)
+		layout := make([]c7task, n)
+		for i := range layout {
+			layout[i] = c7task{Hook: "A", Type: "HookRun", Ctx: []c7ctx{{Label: fmt.Sprintf("c%d", i)}}}
+		}
+		op, q, tasks := c7build(layout)
+		k := 100 + rng.IntN(300)
+		var lateIDs []string
+		start := make(chan struct{})
+		prodDone := make(chan struct{})
+		go func() {
+			defer close(prodDone)
+			<-start
+			for i := 0; i < k; i++ {
+				tk := task.NewTask("HookRun").WithQueueName("q7")
+				tk.WithMetadata(task_metadata.HookMetadata{HookName: "B", BindingContext: []bctx.BindingContext{{Binding: fmt.Sprintf("late%d", i)}}})
+				lateIDs = append(lateIDs, tk.GetId())
+				q.AddLast(tk)
+			}
+		}()
+		close(start)
+		got := op.CombineBindingContextForHook(q, tasks[0], nil)
+		<-prodDone
+		inQueue := map[string]bool{}
+		q.Iterate(func(tk task.Task) { inQueue[tk.GetId()] = true })
+		lost := 0
+		for _, id := range lateIDs {
+			if !inQueue[id] {
+				lost++
+			}
+		}
+		if lost > 0 {
+			res.Violate("lib-free-running/appended-task-lost", "%d of %d tasks of another hook appended while %d tasks were being combined are neither delivered nor in the queue afterwards", lost, k, n)
+		}
+		if got == nil || len(got.BindingContexts) != n {
+			cnt := -1
+			if got != nil {
+				cnt = len(got.BindingContexts)
+			}
+			res.Violate("lib-free-running/contexts", "combined %d contexts, the queue held %d mergeable tasks", cnt, n)
+		}
+		if !inQueue[tasks[0].GetId()] {
+			res.Violate("lib-free-running/head-removed", "the head task is not in the queue after the combination")
+		}
+		res.Count("tasks_appended_during_combine", int64(k))
+		res.Key = fmt.Sprintf("free-n%d-k%d", n/100, k/100)
+		return res
+	})
+
 }
